@@ -9,6 +9,7 @@ import MesonModel.Cargo.BridgeLemmas
 import MesonModel.Cargo.LexLemmas
 import MesonModel.Cargo.CacheLemmas
 import MesonModel.Cargo.CfgTableLemmas
+import MesonModel.Cargo.ResolveLemmas
 import MesonModel.Generated.CargoCache
 
 namespace MesonModel.Props.C20
@@ -472,5 +473,288 @@ example : mkTable ["unix".toList, "target_os=\"linux\"".toList, "feature=\"a\"".
     [("unix".toList, []), ("target_os".toList, "linux".toList), ("feature".toList, ['a'])] := by decide
 
 end CfgTables
+
+/-! ## Consumers: api strings, Cargo.lock resolution, target-specific dependencies, system-deps versions -/
+
+section Consumers
+open MesonModel.Cargo.Resolve
+
+/-- `_api_of` on a release (or partial) version written as digit runs is the documented api:
+the major, `0.<minor>` below 1.0, `0` below 0.1 -/
+theorem api_of_version_text (ds : List (List Char)) (hne : ds ≠ []) (hd : ∀ d, d ∈ ds → IsNum d) :
+    apiOf (dotted ds) = .ok (apiText ds) := apiOf_dotted ds hne hd
+
+example : apiOf "1.2.3".toList = .ok "1".toList ∧ apiOf "0.4.2".toList = .ok "0.4".toList ∧
+    apiOf "0.0.7".toList = .ok "0".toList ∧ apiOf "0".toList = .ok "0".toList := by decide
+
+/-- `Package.api` / `CargoLockPackage.api` (api of the bare version text) and `Dependency.api` after
+`update_version('=' + that version)` are the same string: the `PackageKey` `_dep_package` asks
+`_fetch_package` for is the key the package of that version is recorded under. -/
+theorem pinned_requirement_has_package_api (ds : List (List Char)) (hne : ds ≠ [])
+    (hd : ∀ d, d ∈ ds → IsNum d) :
+    api ('=' :: dotted ds) = api (dotted ds) ∧ api (dotted ds) = .ok (apiText ds) := by
+  have := api_version_text ds hne hd
+  exact ⟨this.2.trans this.1.symm, this.1⟩
+
+/-- the caret range of a version at or above 0.1.0 is exactly: same api, and at least that version -/
+theorem caret_iff_same_api_and_ge (a b c : Nat) (v : V) (h : a ≠ 0 ∨ b ≠ 0) :
+    pinnedRule .caret [a, b, c] v ↔ apiClass v = apiClass (a, b, c) ∧ tle (a, b, c) v :=
+  caret_iff_class_ge a b c v h
+
+example : pinnedRule .caret [0, 3, 1] (0, 3, 9) ∧ apiClass (0, 3, 9) = apiClass (0, 3, 1) := by
+  simp [pinnedRule, cargoRule, tle, tlt, apiClass]
+
+/-- a caret requirement never leaves the api of its version (all versions but 0.0.0, whose caret
+range is the pinned deviation `< 1.0.0`) -/
+theorem caret_stays_in_api (a b c : Nat) (v : V) (h : (a, b, c) ≠ (0, 0, 0))
+    (hm : pinnedRule .caret [a, b, c] v) : apiClass v = apiClass (a, b, c) := by
+  by_cases h2 : a ≠ 0 ∨ b ≠ 0
+  · exact ((caret_iff_class_ge a b c v h2).mp hm).1
+  · have ha : a = 0 := by omega
+    have hb : b = 0 := by omega
+    subst ha; subst hb
+    obtain ⟨c', rfl⟩ : ∃ c', c = c' + 1 := ⟨c - 1, by
+      have : c ≠ 0 := by intro e; subst e; exact h rfl
+      omega⟩
+    obtain ⟨x, y, z⟩ := v
+    simp [pinnedRule, cargoRule, tle, tlt] at hm
+    have hx : x = 0 := by omega
+    have hy : y = 0 := by omega
+    simp [apiClass, hx, hy]
+
+/-- Two versions share an api (hence a subproject name `<crate>-<api>-rs`) iff the newer one lies in
+the caret range of the older one — for every api except `0` (see `api_zero_lumps_witness`). -/
+theorem same_api_iff_caret_compatible (v w : V) (hv : apiClass v ≠ .zero) (hw : w ≠ (0, 0, 0)) :
+    apiClass v = apiClass w ↔
+      (pinnedRule .caret [v.1, v.2.1, v.2.2] w ∨ pinnedRule .caret [w.1, w.2.1, w.2.2] v) := by
+  obtain ⟨a, b, c⟩ := v
+  obtain ⟨x, y, z⟩ := w
+  have hab : a ≠ 0 ∨ b ≠ 0 := by
+    by_cases ha : a = 0 <;> by_cases hb : b = 0 <;> simp_all [apiClass]
+  constructor
+  · intro he
+    have hxy : x ≠ 0 ∨ y ≠ 0 := by
+      by_cases hx : x = 0 <;> by_cases hy : y = 0 <;> simp_all [apiClass]
+    by_cases hle : tle (a, b, c) (x, y, z)
+    · exact Or.inl ((caret_iff_class_ge a b c (x, y, z) hab).mpr ⟨he.symm, hle⟩)
+    · refine Or.inr ((caret_iff_class_ge x y z (a, b, c) hxy).mpr ⟨he, ?_⟩)
+      simp only [tle, tlt, Prod.mk.injEq] at hle ⊢
+      omega
+  · rintro (h | h)
+    · exact ((caret_iff_class_ge a b c (x, y, z) hab).mp h).1.symm
+    · exact caret_stays_in_api x y z (a, b, c) hw h
+
+/-- the api `0` lumps all of 0.0.z together although Cargo treats each 0.0.z as incompatible with
+the others: same api string, neither caret range contains the other version -/
+theorem api_zero_lumps_witness :
+    apiOf "0.0.1".toList = apiOf "0.0.2".toList ∧
+    ¬ pinnedRule .caret [0, 0, 1] (0, 0, 2) ∧ ¬ pinnedRule .caret [0, 0, 2] (0, 0, 1) := by
+  refine ⟨by decide, ?_, ?_⟩ <;> simp [pinnedRule, cargoRule, tle, tlt]
+
+/-- version texts with the same api string are in the same api class (so, by
+`same_api_iff_caret_compatible`, caret compatible unless the api is `0`) -/
+theorem same_api_text_same_class (x1 y1 z1 x2 y2 z2 : List Char)
+    (h1 : IsNum x1) (h2 : IsNum y1) (h4 : IsNum x2) (h5 : IsNum y2)
+    (he : apiText [x1, y1, z1] = apiText [x2, y2, z2]) :
+    apiClass (MesonModel.Py.natOfDigits x1, MesonModel.Py.natOfDigits y1, MesonModel.Py.natOfDigits z1) =
+      apiClass (MesonModel.Py.natOfDigits x2, MesonModel.Py.natOfDigits y2, MesonModel.Py.natOfDigits z2) := by
+  have nodot : ∀ x : List Char, IsNum x → ∀ r, x ≠ '0' :: '.' :: r := by
+    intro x hx r e; subst e
+    have := hx.2 '.' (by simp); exact absurd this (by decide)
+  have zero : ∀ x : List Char, x = ['0'] → MesonModel.Py.natOfDigits x = 0 := by
+    intro x e; subst e; decide
+  simp only [apiText, apiClass] at he ⊢
+  by_cases a1 : MesonModel.Py.natOfDigits x1 = 0 <;> by_cases a2 : MesonModel.Py.natOfDigits x2 = 0 <;>
+    by_cases b1 : MesonModel.Py.natOfDigits y1 = 0 <;> by_cases b2 : MesonModel.Py.natOfDigits y2 = 0 <;>
+    simp [a1, a2, b1, b2] at he ⊢
+  all_goals first
+    | (subst he; simp_all; done)
+    | exact absurd he (nodot _ h4 _)
+    | exact absurd he.symm (nodot _ h4 _)
+    | exact absurd he (nodot _ h1 _)
+    | exact absurd he.symm (nodot _ h1 _)
+    | exact absurd (zero _ he) a1
+    | exact absurd (zero _ he.symm) a2
+    | (subst he; omega)
+    | skip
+
+/-- `resolve_package(name, api)` reads the api string as a requirement: for an api `N` or `0.N`
+(`N ≠ 0`) it accepts exactly the versions of that api; the api `0` accepts every 0.y.z -/
+theorem api_string_as_requirement (n : Nat) (hn : n ≠ 0) (v : V) :
+    (pinnedRule .caret [n] v ↔ apiClass v = .major n) ∧
+    (pinnedRule .caret [0, n] v ↔ apiClass v = .zeroMinor n) ∧
+    (pinnedRule .caret [0] v ↔ v.1 = 0) := by
+  obtain ⟨x, y, z⟩ := v
+  obtain ⟨n', rfl⟩ : ∃ n', n = n' + 1 := ⟨n - 1, by omega⟩
+  refine ⟨?_, ?_, ?_⟩
+  · simp [pinnedRule, cargoRule, tle, tlt, apiClass]
+    by_cases hx : x = 0
+    · by_cases hy : y = 0 <;> simp [hx, hy]
+    · simp [hx]; omega
+  · simp [pinnedRule, cargoRule, tle, tlt, apiClass]
+    by_cases hx : x = 0 <;> by_cases hy : y = 0 <;> simp [hx, hy] <;> omega
+  · simp only [pinnedRule, cargoRule, tle, tlt, Prod.mk.injEq]
+    omega
+
+/-! ### Cargo.lock resolution -/
+
+/-- `_resolve_package` over `CargoLock.named` returns an accepted package of that name, and no
+accepted package of that name in Cargo.lock has higher precedence (for ALL lock files, names and
+predicates) -/
+theorem lock_resolution_picks_newest_accepted (l : List LockPkg) (name : List Char)
+    (acc : List Char → Bool) (p : LockPkg) (h : resolveWith (some l) name acc = some p) :
+    p ∈ l ∧ p.name = name ∧ acc p.version = true ∧
+      ∀ q, q ∈ l → q.name = name → acc q.version = true → vlt (key p) (key q) = false :=
+  resolve_some l name acc p h
+
+/-- … and it returns nothing exactly when Cargo.lock has no accepted package of that name -/
+theorem lock_resolution_none_iff (l : List LockPkg) (name : List Char) (acc : List Char → Bool) :
+    resolveWith (some l) name acc = none ↔ ∀ q, q ∈ l → q.name = name → acc q.version = false :=
+  resolve_none l name acc
+
+example : resolveWith (some [⟨['a'], "1.2.0".toList⟩, ⟨['b'], "9.0.0".toList⟩, ⟨['a'], "1.10.0".toList⟩,
+      ⟨['a'], "2.0.0".toList⟩]) ['a'] (cargoParse "1".toList) = some ⟨['a'], "1.10.0".toList⟩ := by decide
+
+/-- the sort is a stable descending sort: the listing has the same packages, never a newer one
+after an older one -/
+theorem lock_listing_sorted (l : List LockPkg) (name : List Char) :
+    Desc (named l name) ∧ ∀ q, q ∈ named l name ↔ (q ∈ l ∧ q.name = name) := by
+  refine ⟨sortDesc_desc _, fun q => ?_⟩
+  simp [named, mem_sortDesc]
+
+/-- `_dep_package` (registry branch): when Cargo.lock has an accepted version the requirement is
+pinned to it and `_fetch_package` is asked for the api of exactly that version -/
+theorem dep_pin_fetches_package_api (l : List LockPkg) (pkg req : List Char) (p : LockPkg)
+    (ds : List (List Char)) (h : resolveWith (some l) pkg (cargoParse req) = some p)
+    (hv : p.version = dotted ds) (hne : ds ≠ []) (hd : ∀ d, d ∈ ds → IsNum d) :
+    depPin (some l) pkg req = ('=' :: p.version, .ok (apiText ds)) ∧ api p.version = .ok (apiText ds) := by
+  have := api_version_text ds hne hd
+  simp [depPin, h, hv, this.1, this.2]
+
+/-- without an accepted lock entry (or without Cargo.lock) the requirement is left alone -/
+theorem dep_pin_unresolved (lock : Option (List LockPkg)) (pkg req : List Char)
+    (h : resolveWith lock pkg (cargoParse req) = none) : depPin lock pkg req = (req, api req) := by
+  simp [depPin, h]
+
+/-! ### `[target.'<condition>'.dependencies]` -/
+
+/-- After the merge loop of `_prepare_package` the dependency table is the original table updated
+with the tables of exactly the targets whose condition holds, in manifest order (a later enabled
+table wins): for every dependency name, the entry comes from the last enabled target table naming
+it, else from `[dependencies]`. -/
+theorem target_dependencies_selected (triple : List Char) (cfgs : Cfgs) (ts : List (List Char × Deps))
+    (d r : Deps) (h : mergeTargets triple cfgs d ts = .ok r) (k : List Char) :
+    r.lookup k =
+      ((((ts.filter (isEnabled triple cfgs)).flatMap (fun t => t.2)).reverse).lookup k).or (d.lookup k) := by
+  rw [mergeTargets_ok triple cfgs ts d r h, dictUpdate_lookup]
+
+/-- a malformed condition is never skipped or taken silently: the loop raises iff some condition
+(other than the literal target triple) makes `eval_cfg` raise -/
+theorem target_condition_error_iff (triple : List Char) (cfgs : Cfgs) (ts : List (List Char × Deps)) (d : Deps) :
+    (∃ e, mergeTargets triple cfgs d ts = .error e) ↔
+      ∃ t, t ∈ ts ∧ ∃ e, conditionHolds triple cfgs t.1 = .error e :=
+  mergeTargets_error_iff triple cfgs ts d
+
+/-- for the text of a cfg expression the condition is the value of its structure -/
+theorem target_condition_of_cfg_text (triple : List Char) (cfgs : Cfgs) (e : IR) (h : lexOk e) :
+    conditionHolds triple cfgs ("cfg(".toList ++ renderStr e ++ [')']) =
+      .ok (decide ("cfg(".toList ++ renderStr e ++ [')'] = triple) || evalIR cfgs e) := by
+  have hr := evalCfg_render e h cfgs
+  unfold conditionHolds
+  by_cases heq : "cfg(".toList ++ renderStr e ++ [')'] = triple
+  · rw [if_pos heq, decide_eq_true heq]; rfl
+  · rw [if_neg heq, hr, decide_eq_false heq]; rfl
+
+/-- a condition that is not of the form `cfg(…)` only matches as the literal target triple -/
+theorem target_condition_triple (triple : List Char) (cfgs : Cfgs) (cond : List Char)
+    (h : MesonModel.Py.startsWith cond ['c', 'f', 'g', '('] = false) :
+    conditionHolds triple cfgs cond = .ok (decide (cond = triple)) := by
+  unfold conditionHolds
+  split
+  · rename_i heq; simp [heq]
+  · rename_i hne; simp [evalCfg, h, hne]
+
+/-- `_prepare_package` runs once per machine on the same manifest and updates it in place: the
+second machine's table is the first machine's result updated with the second machine's targets -/
+theorem target_merge_history_accumulates (d : Deps) (ts : List (List Char × Deps))
+    (t1 t2 : List Char) (c1 c2 : Cfgs) (r1 r2 : Deps)
+    (h : mergeHistory d ts [(t1, c1), (t2, c2)] = .ok [r1, r2]) :
+    r1 = dictUpdate d ((ts.filter (isEnabled t1 c1)).flatMap (fun t => t.2)) ∧
+    r2 = dictUpdate r1 ((ts.filter (isEnabled t2 c2)).flatMap (fun t => t.2)) := by
+  simp only [mergeHistory] at h
+  cases h1 : mergeTargets t1 c1 d ts with
+  | error e => simp [h1] at h
+  | ok x =>
+    cases h2 : mergeTargets t2 c2 x ts with
+    | error e => simp [h1, h2] at h
+    | ok y =>
+      simp [h1, h2] at h
+      obtain ⟨rfl, rfl⟩ := h
+      exact ⟨mergeTargets_ok _ _ _ _ _ h1, mergeTargets_ok _ _ _ _ _ h2⟩
+
+/-- consequence on a witness: a dependency enabled only for the first machine (`cfg(windows)`) is
+still in the table the second machine (`unix`) resolves from -/
+theorem target_merge_second_machine_witness :
+    mergeHistory [] [("cfg(windows)".toList, [("winapi".toList, "0.3".toList)])]
+      [("x86_64-pc-windows-msvc".toList, [("windows".toList, [])]),
+       ("x86_64-unknown-linux-gnu".toList, [("unix".toList, [])])] =
+      .ok [[("winapi".toList, "0.3".toList)], [("winapi".toList, "0.3".toList)]] ∧
+    mergeTargets "x86_64-unknown-linux-gnu".toList [("unix".toList, [])] []
+      [("cfg(windows)".toList, [("winapi".toList, "0.3".toList)])] = .ok [] := by decide
+
+/-! ### `SystemDependency.meson_version` -/
+
+/-- a bare system-deps version is a minimum version under the meson version order (C19) -/
+theorem system_dep_bare_version_is_minimum (p : List Char) (c : Char) (r v : List Char)
+    (hs : MesonModel.Py.strip p = c :: r) (hc : isCmpStart c = false) :
+    mesonVersionPiece p = .ok ('>' :: '=' :: c :: r) ∧
+    MesonModel.Version.versionCompare v ('>' :: '=' :: c :: r) =
+      MesonModel.Version.vge (MesonModel.Version.tokenize v) (MesonModel.Version.tokenize p) := by
+  refine ⟨by simp [mesonVersionPiece, hs, hc], ?_⟩
+  rw [versionCompare_ge', ← hs, MesonModel.Version.tokenize_strip]
+
+/-- a piece that starts with `>`, `<` or `=` is passed to meson unchanged (stripped) -/
+theorem system_dep_constraint_passed_through (p : List Char) (c : Char) (r : List Char)
+    (hs : MesonModel.Py.strip p = c :: r) (hc : isCmpStart c = true) :
+    mesonVersionPiece p = .ok (MesonModel.Py.strip p) := by
+  simp [mesonVersionPiece, hs, hc]
+
+/-- the found version is accepted iff every converted constraint holds; there is one constraint per
+comma piece, in order -/
+theorem system_dep_accepts_iff (version v : List Char) (b : Bool)
+    (h : systemDepAccepts version v = .ok b) :
+    ∃ cs, mesonVersion version = .ok cs ∧
+      (b = true ↔ ∀ c, c ∈ cs → MesonModel.Version.versionCompare v c = true) := by
+  unfold systemDepAccepts at h
+  cases hm : mesonVersion version with
+  | error e => simp [hm] at h
+  | ok cs =>
+    simp [hm] at h
+    refine ⟨cs, rfl, ?_⟩
+    subst h
+    simp [MesonModel.Version.versionCompareMany, List.filter_eq_nil_iff]
+
+theorem system_dep_pieces (version : List Char) (hne : version ≠ []) (cs : List (List Char))
+    (h : mesonVersion version = .ok cs) :
+    cs.length = (splitOnChar ',' version).length ∧
+      ∀ i (hi : i < (splitOnChar ',' version).length) (hj : i < cs.length),
+        mesonVersionPiece (splitOnChar ',' version)[i] = .ok cs[i] := by
+  simp only [mesonVersion, hne, if_false] at h
+  exact mesonVersionPieces_ok _ _ h
+
+/-- QUIRK: a blank piece (`"1.2,"`, `" "`) is not rejected with a MesonException; `v[0]` raises
+IndexError. The empty string is handled (no constraint). -/
+theorem system_dep_blank_piece_raises (version : List Char) :
+    mesonVersion version = .error .indexError ↔
+      version ≠ [] ∧ ∃ p, p ∈ splitOnChar ',' version ∧ MesonModel.Py.strip p = [] := by
+  unfold mesonVersion
+  by_cases h : version = []
+  · simp [h]
+  · simp [h, mesonVersionPieces_error_iff]
+
+example : mesonVersion "1.2, <2".toList = .ok [">=1.2".toList, "<2".toList] ∧
+    mesonVersion [] = .ok [] ∧ mesonVersion "1.2,".toList = .error .indexError := by decide
+
+end Consumers
 
 end MesonModel.Props.C20
